@@ -19,6 +19,18 @@ Decided:
          nothing switches autoescaping off; the template names rendered are the ones registered;
   R09.e  the JSON body carries code/message/detail/error_type: to_json encodes self.to_dict(), the base
          to_dict has the four keys, overrides extend the super() result.
+Also decided (necessary conditions found clause by clause):
+  R09.a  the handler's slots not_found_type / method_not_allowed_type / server_error_type hold error types with status 404 / 405 /
+         500 in ErrorHandler and every subclass; every uncaught_to_response answers with an instance of a server_error_type slot;
+         a constructor of an error type hands its **kwargs (none of the keys HTTPException.__init__ reads taken out or overwritten),
+         *args and detail to the next constructor, once, on every path; nothing writes code / message / detail / error_type on a class;
+  R09.b  best_match(table, default): the default is None or a plain-text type of the table; the charset of the Content-Type is
+         self.charset; the format table is never modified (stores, mutating methods, global re-binding, in any module that sees it);
+         an adapt() of a subclass defers to the inherited one or obeys the same pairing rule; every render_error of the ErrorHandler
+         family negotiates like the base one;
+  R09.c  to_html / to_xml are the methods each class of the family *resolves* to (mixins outside the family included); a
+         to_escaped_dict() of a subclass obeys the same rule (or extends the inherited mapping with escaped values); placeholders of
+         the constant templates never stand in a tag outside quotes.
 Declined: well-formedness of produced bytes, Accept negotiation inside werkzeug, JSON parseability.
 
 Constructs are located by role: values are followed through single-assignment locals (``local_value``), through
@@ -801,6 +813,72 @@ def check_markup_sinks(rep, repo, err, fam):
         raise AnalysisError('only %d to_html/to_xml renderings found (floor 4)' % len(sinks_seen))
 
 
+def unquoted_placeholders(text):
+    """Placeholders of a ``str.format`` / ``%`` template that stand inside a tag (between '<' and '>') outside quotes:
+    ``<a href={error_type}>``.  html_escape(x, True) makes a value safe as element content and inside a *quoted* attribute
+    value only; unquoted, a space in the value starts a new attribute.  Lexical scan of one constant piece of a template."""
+    out = []
+    in_tag, quote, i = False, None, 0
+    while i < len(text):
+        ch = text[i]
+        if not in_tag:
+            if ch == '<' and text[i + 1:i + 2] not in ('', ' ', '{', '%'):
+                in_tag, quote = True, None
+        elif quote is not None:
+            if ch == quote:
+                quote = None
+        elif ch in '"\'':
+            quote = ch
+        elif ch == '>':
+            in_tag = False
+        elif ch == '{' and text[i + 1:i + 2] != '{':
+            j = text.find('}', i)
+            if j > 0:
+                out.append(text[i:j + 1])
+                i = j
+        elif ch == '{':
+            i += 1
+        elif ch == '%' and text[i + 1:i + 2] in ('s', 'r', '('):
+            out.append(text[i:i + 2])
+        i += 1
+    return out
+
+
+def check_attribute_quoting(rep, repo, fam):
+    """Every constant piece of markup in the format-based to_html / to_xml of the family keeps its placeholders out of
+    unquoted attribute position."""
+    n = 0
+    for m, servers in markup_methods(repo, fam):
+        pieces, done = [], set()
+        for x in walk_body(m.node):
+            if not ((isinstance(x, ast.Constant) and isinstance(x.value, str)) or
+                    (isinstance(x, ast.Name) and isinstance(x.ctx, ast.Load) and x.id not in _param_names(m) and not _name_stores(m, x.id))):
+                continue
+            # the largest constant expression the piece belongs to (a template generated from constants is read as generated)
+            top, cur = None, x
+            while cur is not None and isinstance(cur, ast.expr):
+                if is_function_constant(repo, m, cur):
+                    top = cur
+                cur = m.mod.parents.get(cur)
+            if top is None or id(top) in done:
+                continue
+            done.add(id(top))
+            try:
+                v = fold_in_function(repo, m, top)
+            except Unfoldable:
+                continue
+            for t in ([v] if isinstance(v, str) else list(v) if isinstance(v, (list, tuple)) and all(isinstance(y, str) for y in v) else []):
+                pieces.append((top, t))
+        bad = [(x, ph) for x, t in pieces if '<' in t for ph in unquoted_placeholders(t)]
+        if any('<' in t for x, t in pieces):
+            n += 1
+            rep.check('R09.c', fkey(m, 'placeholders in attributes are quoted'), not bad, 'no placeholder stands in an unquoted attribute value' if not bad else
+                      '%s puts the placeholder %s into a tag outside quotes: an escaped value still ends the attribute at its first space' %
+                      (m.qualname, bad[0][1]), m.mod, bad[0][0] if bad else m.node)
+    if n < 2:
+        raise AnalysisError('markup templates of to_html / to_xml not found (%d)' % n)
+
+
 def _template_name(repo, mod, fi, render_call, recv=None):
     """Folded first argument of CONTEXTUAL_ENV.render(name, ctx); ``self.attr`` is looked up on the class of the
     receiver ``recv`` (default: the class defining the method) through its bases -- a class attribute that no method
@@ -1394,6 +1472,8 @@ def rule_a(rep, repo, err, base, fam):
               'the default body / mimetype pair of HTTPException changed', err, init.node)
     check_constructor_order(rep, repo, err, base, init, icfg)
     _guarded(rep, check_handler_slots, rep, repo, err, base)
+    _guarded(rep, check_uncaught_type, rep, repo, err)
+    _guarded(rep, check_class_defaults_constant, rep, repo, err, fam)
     _guarded(rep, check_constructor_chain, rep, repo, err, base, fam)
 
 
@@ -1565,6 +1645,69 @@ def check_handler_slots(rep, repo, err, base):
         raise AnalysisError('ErrorHandler: only %d of the slots not_found_type / method_not_allowed_type / server_error_type found' % n)
 
 
+def check_uncaught_type(rep, repo, err):
+    """An uncaught exception is answered with the handler's server-error type (status 500, slot checked above): every
+    uncaught_to_response of the ErrorHandler family returns an instance made from a ``server_error_type`` slot, or re-raises."""
+    eh = err.classes.get('ErrorHandler')
+    if eh is None:
+        raise AnalysisError('anchor vanished: class %s::ErrorHandler' % ERR)
+    n = 0
+    for c in [eh] + repo.subclasses(eh):
+        m = c.methods.get('uncaught_to_response')
+        if m is None:
+            continue
+        n += 1
+        bad = []
+        for r in returns_of(m):
+            if r.value is None:
+                bad.append(r)
+                continue
+            for f_, e in value_leaves(repo, m, r.value):
+                fn = expand_expr(f_, e.func, _use_stmt(f_, e)) if isinstance(e, ast.Call) else None
+                if not (fn is not None and isinstance(fn, ast.Attribute) and fn.attr == 'server_error_type'):
+                    bad.append(e)
+        ok = not bad and not _falls_off(m)
+        rep.check('R09.a', fkey(m, 'answers with the server error type'), ok, '%s answers with an instance of the handler\'s server_error_type' % m.qualname if ok else
+                  '%s can answer an uncaught exception with %s instead of an instance of the handler\'s server_error_type' %
+                  (m.qualname, short(bad[0], 50) if bad else 'None (falls off the end)'), c.mod, bad[0] if bad else m.node)
+    if n < 2:
+        raise AnalysisError('uncaught_to_response: only %d definition(s) found in the ErrorHandler family' % n)
+
+
+_CLASS_DEFAULTS = ('code', 'message', 'detail', 'error_type')
+
+
+def check_class_defaults_constant(rep, repo, err, fam):
+    """The class-level code / message / detail of the error types are what the status table (R09.a) and every instance
+    without an override rely on: no code of the errors module writes them on a class (``Cls.detail = ...``,
+    ``type(self).detail += ...``, ``self.__class__.code = ...``, ``cls.message = ...``) -- such a write outlives the request."""
+    names = set(c.name for c in fam)
+    bad = []
+    for n in ast.walk(err.tree):
+        if not (isinstance(n, ast.Attribute) and isinstance(n.ctx, (ast.Store, ast.Del)) and n.attr in _CLASS_DEFAULTS):
+            continue
+        r = n.value
+        on_class = (isinstance(r, ast.Name) and (r.id in names or r.id == 'cls')) or \
+            (isinstance(r, ast.Call) and isinstance(r.func, ast.Name) and r.func.id == 'type' and len(r.args) == 1) or \
+            (isinstance(r, ast.Attribute) and r.attr == '__class__')
+        if on_class:
+            fn = err.enclosing_function(n)
+            fi = err.func_of_node(fn) if fn is not None and not isinstance(fn, ast.Lambda) else None
+            if isinstance(r, ast.Name) and r.id != 'cls' and fi is not None and (r.id in _param_names(fi) or _name_stores(fi, r.id)):
+                continue
+            bad.append(n)
+    for n in ast.walk(err.tree):
+        if isinstance(n, ast.Call) and isinstance(n.func, ast.Name) and n.func.id == 'setattr' and len(n.args) >= 2 and \
+                (not isinstance(n.args[1], ast.Constant) or n.args[1].value in _CLASS_DEFAULTS):
+            r = n.args[0]
+            if (isinstance(r, ast.Name) and (r.id in names or r.id == 'cls')) or (isinstance(r, ast.Call) and norm(r.func) == 'type') or \
+                    (isinstance(r, ast.Attribute) and r.attr == '__class__'):
+                bad.append(n)
+    rep.check('R09.a', '%s::class defaults are constant' % ERR, not bad, 'no code writes code / message / detail / error_type on an error class' if not bad else
+              'a class-level default of an error type is written at run time (%s): what one request stores shows up in the status / body of '
+              'every later error of that type' % short(err.parents.get(bad[0], bad[0]), 60), err, bad[0] if bad else None)
+
+
 def _base_popped_keys(base_init):
     """Keys HTTPException.__init__ takes out of its **kwargs (``kwargs.pop('<key>', ...)``)."""
     kwn = base_init.node.args.kwarg.arg if base_init.node.args.kwarg else None
@@ -1705,6 +1848,7 @@ def rule_c(rep, repo, err, base, fam):
         if m.name == 'to_escaped_dict' and m is not base.methods['to_escaped_dict']:
             _guarded(rep, check_escaped_dict, rep, repo, err, base, m)
     _guarded(rep, check_markup_sinks, rep, repo, err, fam)
+    _guarded(rep, check_attribute_quoting, rep, repo, fam)
     if check_template_constancy(rep, 'R09.c') < 3:
         raise AnalysisError('format sinks in the to_* serialisers not found')
     check_escape_total(rep, 'R09.c')
